@@ -70,7 +70,7 @@ TraceTableEvent ==
              /\ \A x \in snap : \E n \in table' :
                    Key(n) = KeyOf(x) /\ n.ab = x.ab /\ n.q = x.q /\ n.r = x.r /\ n.failed = x.failed
         ELSE table' = {Merge(e, x) : x \in snap}
-     /\ obs' = [set |-> TRUE, snap |-> snap, snapLen |-> Len(Ev.snap), numNodes |-> Ev.numNodes,
+     /\ obs' = [set |-> TRUE, snap |-> snap, snapLen |-> Len(Ev.snap), numNodes |-> Ev.numNodes, statsNodes |-> Ev.statsNodes,
                 goodNodes |-> Ev.goodNodes, nodes |-> {<<p[1], p[2]>> : p \in Range(Ev.nodes)},
                 nodesLen |-> Len(Ev.nodes), addrIndex |-> Ev.addrIndex]
   /\ ans' = NoAns
@@ -94,6 +94,7 @@ InvWellFormed == WellFormed(table)
 InvCounts == obs.set =>
   /\ obs.snapLen = Cardinality(table)          \* no two entries share ID and address
   /\ obs.numNodes = Cardinality(table)
+  /\ obs.statsNodes = Cardinality(table)      \* Stats().Nodes: "count of nodes in the node table"
   /\ obs.addrIndex = Cardinality(table)
   /\ obs.goodNodes = Cardinality({x \in obs.snap : x.good})
   /\ obs.nodes = {KeyOf(x) : x \in {y \in obs.snap : ~y.bad}}
